@@ -79,6 +79,7 @@ def check(ctx):
     check_every_chunk_counted(ctx)
     check_per_file_state(ctx)
     check_same_gene_order(ctx)
+    check_merge_tables_agree(ctx)
     from .C05 import check_tiles
     check_tiles(ctx, ('diff_exp.precompute_from_anndata',
                       'diff_exp.precompute_utils'), floor=1)
@@ -835,3 +836,64 @@ def check_per_file_state(ctx):
         ctx.ok(rule, '_process_chunk_spec', fi.loc(loop),
                'nothing derived from the file is cached across '
                'iterations', nontrivial=False)
+
+
+def _weak_comparison(t):
+    """name of the order- / content-insensitive form a comparison goes
+    through, or None"""
+    if not (isinstance(t, ast.Compare) and len(t.ops) == 1 and isinstance(
+            t.ops[0], (ast.NotEq, ast.Eq))):
+        return 'not an (in)equality of the two tables'
+    for side in [t.left] + list(t.comparators):
+        if isinstance(side, ast.Call):
+            f = side.func
+            nm = f.id if isinstance(f, ast.Name) else getattr(f, 'attr', '')
+            if nm in ('set', 'frozenset', 'sorted', 'len', 'Counter',
+                      'keys', 'values'):
+                return nm
+    return None
+
+
+def check_merge_tables_agree(ctx):
+    """merge_precompute_files replaces rows and columns of one statistics
+    file by those of another *by position*.  It may do so only after it
+    has established that the two files number clusters and genes in the
+    same way: the raising comparisons of 'cluster_to_row' and 'col_names'
+    compare the complete tables (not their key sets, lengths or sorted
+    copies)."""
+    from ..core.slicing import backward_slice
+    db = ctx.db
+    fi = db.fn('diff_exp.precompute_utils:merge_precompute_files')
+    ctx.touch(fi)
+    cfg = cfg_of(fi)
+    rd = rd_of(fi)
+    rule = 'R-GUARD/merge-tables-agree'
+    for key in ('cluster_to_row', 'col_names'):
+        guards = []
+        for n in cfg.nodes:
+            if n.kind != 'if' or n.id not in rd.live:
+                continue
+            sl = backward_slice(fi, n.ast.test, n.id)
+            if key not in sl.consts:
+                continue
+            for (t, lab) in cfg.succ[n.id]:
+                if lab == 'true':
+                    okp, _p = cfg.must_pass(
+                        t, {cfg.exit}, lambda x: x.kind == 'raise',
+                        edge_ok=lambda a, b, l2: l2 != 'exc')
+                    if okp or cfg.nodes[t].kind == 'raise':
+                        guards.append(n)
+        if not guards:
+            ctx.fail(rule, f'{fi.qual}:{key}', fi.loc(),
+                     f"no raising comparison of '{key}' between the files "
+                     'that are merged by position')
+            continue
+        for g in guards:
+            weak = _weak_comparison(g.ast.test)
+            # the operands must be the tables themselves
+            ctx.ob(rule, f'{fi.qual}:{key}', fi.loc(g.ast), weak is None,
+                   f"files whose '{key}' differ in content or numbering "
+                   'are refused' if weak is None else
+                   f'`{unparse(g.ast.test)[:70]}` compares the tables '
+                   f'through `{weak}`: files that name the same clusters / '
+                   'genes under different numbers are merged row for row')
